@@ -33,6 +33,7 @@ type sessGen struct {
 	flavorGet  map[string]bool
 	flavorSet  map[string]bool
 	instVars   map[string]bool        // variables holding instances (their printed value has an address)
+	instOf     map[string]string      // variable -> flavor of the instance it holds now
 	calls    map[string]map[string]bool // user function -> user functions and macros its body mentions
 }
 
@@ -208,6 +209,77 @@ var llKinds = []llKind{
 	{"(x &optional (y 2))", []string{"x", "y"}, []string{"1", "1 7"}},
 	{"(x &rest r)", []string{"x"}, []string{"1", "1 2 3"}},
 	{"(x &key (k 3) j)", []string{"x", "k"}, []string{"1", "1 :k 9", "2 :j 4 :k 1"}},
+	// defaults that are forms: stored unevaluated, written as they are, evaluated when the argument is missing
+	{"(x &optional (y (+ x 1)) &key (k (* 2 x)))", []string{"x", "y", "k"}, []string{"1", "1 7", "1 7 :k 2", "3"}},
+	{"(x &key (k (if (> x 0) (- x 1) 2)))", []string{"x", "k"}, []string{"1", "-4", "1 :k 9"}},
+}
+
+// oneArg: lambda lists that accept a single argument
+func oneArg(k string) bool {
+	return k == "(x)" || k == "(x &optional (y 2))" || k == "(x &rest r)" || k == "(x &key (k 3) j)" ||
+		k == "(x &optional (y (+ x 1)) &key (k (* 2 x)))" || k == "(x &key (k (if (> x 0) (- x 1) 2)))"
+}
+
+// The block of default forms: every shape of default value x {&optional, &key} x {defun, defmacro, lambda held by a
+// variable}, one session per definer, enumerated on every run.
+var defaultForms = []string{"2", "\"s\"", ":kw", "t", "'(1 2)", "'sym", "#(1 2)", "(list x 1)", "(+ x 1)", "(cons x nil)",
+	"(list (* x 2) \"s\")", "(if (> x 0) 1 2)", "(let ((z (* x 2))) (+ z 1))"}
+
+// The block of instance variable values: every kind of value x the three ways it gets into an instance variable
+// (init keyword, (send v :set-x ...), a second variable set with setq), one flavor per session, enumerated on every run.
+var slotKinds = []string{"7", "\"two words\"", ":kw", "nil", "'(1 2 3)", "'(1 (2 \"two\") 3)", "'(a . b)", "'((x y) #(1 z))", "#(1 2)",
+	"(make-instance 'blk :sa '(x y))", "blk", "(let ((table (make-hash-table))) (setf (gethash 'k table) 1) table)", "(lambda (x) (* x 2))"}
+
+func instanceSlotSessions() (sessions [][]string, probes [][]string) {
+	letters := "abcdefghijklmnopqrstuvwxyz"
+	var names []string
+	for i := range slotKinds {
+		names = append(names, "s"+string(letters[i]))
+	}
+	fl := "(defflavor blk (" + strings.Join(names, " ") + ") () :gettable-instance-variables :settable-instance-variables :inittable-instance-variables)"
+	var init, probeI, sends, probeJ, probeK []string
+	for i, k := range slotKinds {
+		init = append(init, ":"+names[i]+" "+k)
+		sends = append(sends, fmt.Sprintf("(send *bj* :set-%s %s)", names[i], k))
+		for _, v := range []string{"*bi*", "*bj*", "*bk*"} {
+			p := fmt.Sprintf("(send %s :%s)", v, names[i])
+			if strings.HasPrefix(k, "(make-instance") {
+				p = fmt.Sprintf("(send (send %s :%s) :sa)", v, names[i])
+			} else if strings.HasPrefix(k, "(let ((table") {
+				p = fmt.Sprintf("(gethash 'k (send %s :%s))", v, names[i])
+			} else if strings.HasPrefix(k, "(lambda") {
+				p = fmt.Sprintf("(funcall (send %s :%s) 4)", v, names[i])
+			}
+			switch v {
+			case "*bi*":
+				probeI = append(probeI, p)
+			case "*bj*":
+				probeJ = append(probeJ, p)
+			default:
+				probeK = append(probeK, p)
+			}
+		}
+	}
+	s1 := []string{fl, "(defvar *bi* (make-instance 'blk " + strings.Join(init, " ") + "))"}
+	s2 := append([]string{fl, "(defparameter *bj* (make-instance 'blk) \"set by send\")"}, sends...)
+	s3 := []string{fl, "(defvar *bk* 1)", "(setq *bk* (make-instance 'blk " + strings.Join(init, " ") + "))"}
+	return [][]string{s1, s2, s3}, [][]string{probeI, probeJ, probeK}
+}
+
+func defaultFormSessions() (sessions [][]string, probes [][]string) {
+	letters := "abcdefghijklmnopqrstuvwxyz"
+	var fs, ms, ls, fp, mp, lp []string
+	for i, d := range defaultForms {
+		c := string(letters[i])
+		fs = append(fs, fmt.Sprintf("(defun dfo%s (x &optional (y %s)) (list x y))", c, d), fmt.Sprintf("(defun dfk%s (x &key (k %s) j) (list x k j))", c, d))
+		fp = append(fp, fmt.Sprintf("(dfo%s 3)", c), fmt.Sprintf("(dfo%s 3 4)", c), fmt.Sprintf("(dfk%s 3)", c), fmt.Sprintf("(dfk%s 3 :j 1)", c), fmt.Sprintf("(dfk%s 3 :k 5)", c),
+			fmt.Sprintf("(make-load-form 'dfo%s)", c))
+		ms = append(ms, fmt.Sprintf("(defmacro dmo%s (x &optional (y %s)) (list 'list x (list 'quote y)))", c, d))
+		mp = append(mp, fmt.Sprintf("(dmo%s 3)", c), fmt.Sprintf("(dmo%s 3 4)", c), fmt.Sprintf("(make-load-form 'dmo%s)", c))
+		ls = append(ls, fmt.Sprintf("(defvar *dl%s* (lambda (x &optional (y %s) &key (k %s)) (list x y k)))", c, d, d))
+		lp = append(lp, fmt.Sprintf("(funcall *dl%s* 3)", c), fmt.Sprintf("(funcall *dl%s* 3 4)", c), fmt.Sprintf("(funcall *dl%s* 3 4 :k 5)", c))
+	}
+	return [][]string{fs, ms, ls}, [][]string{fp, mp, lp}
 }
 
 func (g *sessGen) expr(vars []string, depth int) string {
@@ -245,7 +317,7 @@ func (g *sessGen) expr(vars []string, depth int) string {
 		// call of a function defined earlier with a one-argument-compatible lambda list
 		var cands []string
 		for n, k := range g.funs {
-			if k == "(x)" || k == "(x &optional (y 2))" || k == "(x &rest r)" || k == "(x &key (k 3) j)" {
+			if oneArg(k) {
 				// never a cycle (probes must terminate); reloaded in name order: a tame body only calls what sorts
 				// before it (a function called before it is defined loses its name in the next snapshot)
 				if !g.reaches(n, g.curFun, map[string]bool{}) && ((g.wild && g.curFun != "") || n < g.curFun) {
@@ -423,6 +495,152 @@ func (g *sessGen) special(vars []string, depth int, atom func() string) string {
 	}
 }
 
+// slotValue: a value for an instance variable: what snapshot.go ppInstance has to pass through ppValue again
+func (g *sessGen) slotValue(fl string, depth int) string {
+	switch x := g.r.Intn(100); {
+	case x < 20:
+		g.hist("slot:atom")
+		return common.Pick(g.r, []string{"7", "-3", "\"s\"", "\"two words\"", ":kw", "t", "nil", "2.5", "#\\a"})
+	case x < 50:
+		g.hist("slot:quoted-list")
+		d := g.datum(2)
+		for !strings.HasPrefix(d, "(") {
+			d = g.datum(2)
+		}
+		return "'" + d
+	case x < 58:
+		g.hist("slot:vector")
+		return common.Pick(g.r, []string{"#(1 2)", "#(a (b c) \"s\")"})
+	case x < 72:
+		if depth > 0 {
+			g.hist("slot:nested-instance")
+			inner := fmt.Sprintf("(make-instance '%s", fl)
+			if g.flavorInit[fl] && len(g.flavorVars[fl]) > 0 {
+				inner += fmt.Sprintf(" :%s %s", g.flavorVars[fl][g.r.Intn(len(g.flavorVars[fl]))].name, g.slotValue(fl, depth-1))
+			}
+			return inner + ")"
+		}
+		return "42"
+	case x < 80:
+		g.hist("slot:flavor-object")
+		return fl
+	case x < 86:
+		g.hist("slot:hash-table")
+		return "(let ((table (make-hash-table))) (setf (gethash 'k table) 1) table)"
+	case x < 92:
+		g.hist("slot:lambda")
+		return "(lambda (x) (* x 2))"
+	default:
+		if g.wild {
+			g.hist("slot:quoted-symbol")
+			return "'sym"
+		}
+		g.hist("slot:atom")
+		return "11"
+	}
+}
+
+// modelledFlavorStep: a flavor without components, a variable holding an instance of it, or a (send v :set-x value)
+func (g *sessGen) modelledFlavorStep() {
+	max := 1
+	if g.wild {
+		max = 2 // two unrelated flavors: their order in the snapshot is not stable (known finding)
+	}
+	if len(g.flavors) < max && (len(g.flavors) == 0 || g.r.Chance(30)) {
+		n := flavorNames[len(g.flavors)]
+		g.hist("op:defflavor-modelled")
+		defaults := []string{"1", "2", "\"s\"", "2.5", ":kw", "t"}
+		var parts []string
+		for _, suffix := range []string{"-p", "-q", "-r"} {
+			if g.r.Chance(75) {
+				d := ""
+				if g.r.Chance(50) {
+					d = common.Pick(g.r, defaults)
+				}
+				if g.wild && g.r.Chance(15) {
+					d = common.Pick(g.r, []string{"'red", "'(a b)"})
+				}
+				g.flavorVars[n] = append(g.flavorVars[n], flavorVar{n + suffix, d})
+				if d == "" {
+					parts = append(parts, n+suffix)
+				} else {
+					parts = append(parts, "("+n+suffix+" "+d+")")
+				}
+			}
+		}
+		opts := common.Pick(g.r, []string{" :gettable-instance-variables :settable-instance-variables :inittable-instance-variables",
+			" :gettable-instance-variables :settable-instance-variables :inittable-instance-variables (:documentation \"a flavor\")",
+			" :settable-instance-variables :gettable-instance-variables", " :inittable-instance-variables :gettable-instance-variables", ""})
+		g.add(fmt.Sprintf("(defflavor %s (%s) ()%s)", n, strings.Join(parts, " "), opts))
+		g.flavors = append(g.flavors, n)
+		g.flavorInit[n] = strings.Contains(opts, ":inittable")
+		g.flavorGet[n] = strings.Contains(opts, ":gettable")
+		g.flavorSet[n] = strings.Contains(opts, ":settable")
+		for _, v := range g.flavorVars[n] {
+			g.probe(fmt.Sprintf("(send (make-instance '%s) :%s)", n, v.name))
+			g.probe(fmt.Sprintf("(slot-value (make-instance '%s) '%s)", n, v.name))
+		}
+		return
+	}
+	if len(g.flavors) == 0 {
+		return
+	}
+	fl := g.flavors[g.r.Intn(len(g.flavors))]
+	// a send to a variable that holds an instance
+	var holders []string
+	for v, f := range g.instOf {
+		if f == fl {
+			holders = append(holders, v)
+		}
+	}
+	sort.Strings(holders)
+	if len(holders) > 0 && g.flavorSet[fl] && len(g.flavorVars[fl]) > 0 && g.r.Chance(55) {
+		g.hist("op:send-set")
+		v := holders[g.r.Intn(len(holders))]
+		iv := g.flavorVars[fl][g.r.Intn(len(g.flavorVars[fl]))].name
+		g.add(fmt.Sprintf("(send %s :set-%s %s)", v, iv, g.slotValue(fl, 1)))
+		return
+	}
+	vn := g.pick(varNames)
+	inst := fmt.Sprintf("(make-instance '%s", fl)
+	if g.flavorInit[fl] {
+		for _, iv := range g.flavorVars[fl] {
+			if g.r.Chance(60) {
+				inst += fmt.Sprintf(" :%s %s", iv.name, g.slotValue(fl, 1))
+			}
+		}
+	}
+	inst += ")"
+	switch g.r.Intn(3) {
+	case 0:
+		g.hist("op:defvar-instance-modelled")
+		g.add(fmt.Sprintf("(defvar %s %s)", vn, inst))
+		if !g.vars[vn] {
+			g.instOf[vn] = fl
+		}
+	case 1:
+		g.hist("op:defparameter-instance-modelled")
+		g.add(fmt.Sprintf("(defparameter %s %s \"holds an instance\")", vn, inst))
+		g.instOf[vn] = fl
+	default:
+		if g.vars[vn] {
+			g.hist("op:setq-instance-modelled")
+			g.add(fmt.Sprintf("(setq %s %s)", vn, inst))
+			g.instOf[vn] = fl
+		} else {
+			g.hist("op:defparameter-instance-modelled")
+			g.add(fmt.Sprintf("(defparameter %s %s)", vn, inst))
+			g.instOf[vn] = fl
+		}
+	}
+	g.vars[vn] = true
+	g.instVars[vn] = true
+	for _, iv := range g.flavorVars[fl] {
+		g.probe(fmt.Sprintf("(send %s :%s)", vn, iv.name))
+		g.probe(fmt.Sprintf("(send (send %s :%s) :%s)", vn, iv.name, iv.name)) // a nested instance (an error otherwise, in both)
+	}
+}
+
 func (g *sessGen) pick(names []string) string { return common.Pick(g.r, names) }
 
 func (g *sessGen) add(form string)    { g.forms = append(g.forms, form) }
@@ -452,6 +670,7 @@ func (g *sessGen) step() {
 	case x < 24:
 		n := g.pick(varNames)
 		g.hist("op:defparameter")
+		delete(g.instOf, g.qual(n))
 		f := "(defparameter " + n + " " + g.value()
 		if g.r.Chance(40) {
 			f += " \"" + g.doc() + "\""
@@ -474,6 +693,7 @@ func (g *sessGen) step() {
 		if i := strings.Index(n, "::"); i >= 0 {
 			n = n[i+2:]
 		}
+		delete(g.instOf, n)
 		g.add("(setq " + n + " " + g.value() + ")")
 	case x < 38:
 		n := g.pick(constNames)
@@ -552,14 +772,17 @@ func (g *sessGen) step() {
 		g.add(f)
 		g.macros[n] = true
 	case g.modelled:
-		// the remaining kinds are outside the Coq session model
-		if g.wild && g.r.Chance(30) {
+		// flavors without components and instances of them held by variables are in the Coq session model
+		// (Session.v: defflavor, make-instance, send :set-..., ppInstance); the remaining kinds are not
+		if g.wild && g.r.Chance(25) {
 			n := g.pick(varNames)
 			if !g.vars[n] {
 				g.hist("op:defvar-unbound")
 				g.add("(defvar " + n + ")")
 			}
+			return
 		}
+		g.modelledFlavorStep()
 	case x < 76:
 		if g.curPkg != "" {
 			g.hist("op:in-package-back")
@@ -785,7 +1008,7 @@ func (g *sessGen) step() {
 func genSession(r *common.Rng, hist func(string), wild, modelled bool) (forms, probes []string, wildText bool) {
 	g := &sessGen{r: r, hist: hist, funs: map[string]string{}, macros: map[string]bool{}, vars: map[string]bool{},
 		consts: map[string]bool{}, wild: wild, modelled: modelled, calls: map[string]map[string]bool{},
-		flavorVars: map[string][]flavorVar{}, flavorInit: map[string]bool{}, flavorGet: map[string]bool{}, flavorSet: map[string]bool{}, instVars: map[string]bool{}}
+		flavorVars: map[string][]flavorVar{}, flavorInit: map[string]bool{}, flavorGet: map[string]bool{}, flavorSet: map[string]bool{}, instVars: map[string]bool{}, instOf: map[string]string{}}
 	n := 3 + r.Intn(10)
 	for i := 0; i < n; i++ {
 		g.step()
